@@ -25,6 +25,8 @@ def build_corpus(chk, tier, corpus_file, exhaustive_len=None, sizes=None):
         corpus.append(("alias", asm.assemble(prog), None))
     for prog in progs.object_container_programs():
         corpus.append(("objcontainer", asm.assemble(prog), None))
+    for prog in progs.unmodelled_op_programs():
+        corpus.append(("unmodelled", asm.assemble(prog), None))
     for _ in range(nrand):
         corpus.append(("random", asm.assemble(progs.random_typed(rng)), None))
     for _ in range(nnat):
